@@ -10,7 +10,7 @@ from __future__ import annotations
 import ast
 
 from . import terms as T
-from .evalr import lse
+from .evalr import lse, norm_app
 
 
 _PARSED: dict = {}
@@ -63,7 +63,7 @@ def _ev(n, env):
         if f in ("min2", "max2"):
             a, b = sorted(args, key=repr)
             return T.app(f, a, b)
-        return T.app(f, *args, **kw)
+        return norm_app(f, args, kw)
     if isinstance(n, ast.Tuple):
         return ("t", tuple(_ev(x, env) for x in n.elts))
     raise ValueError(f"spec: unsupported syntax {ast.dump(n)}")
